@@ -2788,3 +2788,14 @@ Proof.
     apply in_rev in X. exact X.
   - intros id l1 l2 H. apply rev_split in H. rewrite <- nfd_rev. eapply G; eauto.
 Qed.
+
+(* what the OS accepts in one call fits the `int` that uv__try_write / uv_try_write return *)
+Lemma sys_write_fits_int o : forall off n o', sys_write o off = (WN n, o') -> (Z.of_N n <= 2147483647)%Z.
+Proof.
+  induction o as [|a o IH]; intros off n o' H; cbn [sys_write] in H.
+  - inversion H; subst. unfold MAX_RW_COUNT. lia.
+  - destruct a as [m|e].
+    + inversion H; subst. unfold MAX_RW_COUNT. lia.
+    + destruct (Pos.eqb e 4); [eauto|].
+      destruct (Pos.eqb e 11 || Pos.eqb e 105); inversion H.
+Qed.
